@@ -13,6 +13,7 @@ LEVEL_TEXT = ("Static structural proof of necessary conditions: (R3.1) the regis
               "(R3.2) the remainder returned by the resolver is a slice of the original-case text, never of the "
               "case-folded working copy (integer indices excepted). Identity of the resolved node for every spelling, "
               "inverse/idempotent conversions and takes-value switching are NOT decided.")
+LEVEL_EXTRA = 'Added after the seeded evaluation: (R3.3) namespace prefixes are removed by length, never with the character-set strip family.'
 
 
 def _value_tainted(expr, tainted_names):
